@@ -18,7 +18,7 @@ import (
 func init() {
 	Register(&Prop{
 		ID:   "C19",
-		Expl: "A static lockset check, not a race-detector run. A frozen guarded-by table (confirmed by reading; one reason per entry) names the mutex that protects each shared field of the policy, the chain/payment watchers, the swap service, the messenger manager, the peer-sync poller and the per-swap machine (SwapData.*, Previous, retries <- SwapStateMachine.mutex; Current <- stateMutex for writes, stateMutex or mutex for reads). (R1) for EVERY read and write of a tabled field in every production function the guard is in the held-lock set: held locally (flow-sensitive, c18 engine, including the net effect of lock wrappers and release helpers) or by all synchronous callers and not released again by the function itself before the access (intersection over the VTA call graph; go statements and library callbacks start with the empty set). Where some callers hold the guard and others do not, the obligation is moved to the callers that do not (e.g. Recover running actions). An access is exempt only when the object is provably private: allocated in the function (or returned fresh by a callee / the swap store) and not yet stored into shared memory, handed to a goroutine or captured (constructors, pre-publication code); provenance follows parameters up the call graph. Reads are only checked for fields that have a writer after publication. (R2) the functions that store to SwapData fields are enumerated and each is classified (constructor, under the mutex, caller holds it, or violating). The quantifier is over all access sites and all call chains, i.e. all interleavings of the concurrent entry points.",
+		Expl: "A static lockset check, not a race-detector run. A frozen guarded-by table (confirmed by reading; one reason per entry) names the mutex that protects each shared field of the policy, the chain/payment watchers, the swap service, the messenger manager, the peer-sync poller and the per-swap machine (SwapData.*, Previous, retries <- SwapStateMachine.mutex; Current <- stateMutex for writes, stateMutex or mutex for reads). (R1) for EVERY read and write of a tabled field in every production function the guard is in the held-lock set: held locally (flow-sensitive, c18 engine, including the net effect of lock wrappers and release helpers) or by all synchronous callers and not released again by the function itself before the access (intersection over the VTA call graph; go statements and library callbacks start with the empty set). Where some callers hold the guard and others do not, the obligation is moved to the callers that do not (e.g. Recover running actions). An access is exempt only when the object is provably private: allocated in the function (or returned fresh by a callee / the swap store) and not yet stored into shared memory, handed to a goroutine or captured (constructors, pre-publication code); provenance follows parameters up the call graph. Reads are only checked for fields that have a writer after publication. Reference escape: when a guarded field holds a map, slice or pointer, every use of the loaded reference (range, lookup, update, len, index, dereference; followed through locals, phis, closures, parameters and results) must also hold the guard, unless it cannot race (element reads of a slice nobody writes in place - a header copy is then a snapshot -, reads of a map nobody mutates, reads of struct fields without a writer after publication). (R2) the functions that store to SwapData fields are enumerated and each is classified (constructor, under the mutex, caller holds it, or violating). The quantifier is over all access sites and all call chains, i.e. all interleavings of the concurrent entry points.",
 		NotD: "Races on fields outside the table (callback fields written once at start-up are deliberately not in it); happens-before through channels, WaitGroups or goroutine creation other than publication of a fresh object; accesses by reflection (json.Marshal of a live machine in Store.UpdateData, fmt verbs); read-side races of code outside package swap on live SwapData (RPC pretty-printers; listed as info, not decided); functions without any production caller that get the object as parameter (info). Lock classes merge instances: holding the mutex of another object of the same class counts as guarded.",
 		Run:  runC19,
 	})
@@ -144,6 +144,7 @@ type c19Finding struct {
 	evs                  map[string]c19Ev
 	witness              map[string]bool
 	need                 c19Need
+	extra                string
 }
 
 type c19An struct {
@@ -165,10 +166,13 @@ type c19An struct {
 	alongBusy   map[string]bool
 	liveWritten map[string]bool
 	findings    map[string]*c19Finding
+	fieldStores map[string][]*ssa.Store
+	fieldLive   map[string]int
 }
 
 func runC19(c *an.Check) {
 	c.Rule("C19.R1", "every read/write of a field of the guarded-by table happens with its guard held locally or by all synchronous callers, unless the object is provably unpublished; one obligation per (function, field or callee, guard) where the lock is missing, one discharged obligation per (type.field)")
+	c.Rule("C19.R1ref", "reference escape (part of R1): a map, slice or pointer loaded from a guarded field is only used (ranged over, indexed, looked up, updated, dereferenced) with the guard held - following the value through locals, phis, closures, parameters and results - unless the use cannot race: element reads of a slice that nobody writes in place (a header copy is a snapshot), reads of a map nobody mutates, reads of struct fields that have no writer after publication")
 	c.Rule("C19.R2", "every function that stores to a SwapData field is a constructor (fresh object), holds the per-swap mutex, or is only run by callers that hold it")
 	w := c.W
 	e := c18Get(w)
@@ -260,6 +264,9 @@ func runC19(c *an.Check) {
 		}
 		perField[j.x.field] = cnt
 	}
+
+	// reference escape: uses of a loaded map/slice/pointer after the guard was released
+	a.refEscape(accs)
 
 	// emit
 	for _, k := range sortedFindingKeys(a.findings) {
@@ -403,64 +410,7 @@ func (a *c19An) resolveTable() bool {
 
 // entrySets computes the locks held by all / by some synchronous callers.
 func (a *c19An) entrySets() {
-	e := a.e
-	a.entryMu = map[*ssa.Function]c18Set{}
-	top := map[*ssa.Function]bool{}
-	for _, fn := range e.funcs {
-		if len(e.callers[fn]) > 0 {
-			top[fn] = true
-		} else {
-			a.entryMu[fn] = c18Set{}
-		}
-	}
-	for changed := true; changed; {
-		changed = false
-		for _, fn := range e.funcs {
-			if len(e.callers[fn]) == 0 {
-				continue
-			}
-			var acc c18Set
-			accTop := true
-			for _, s := range e.callers[fn] {
-				var contrib c18Set
-				if s.isGo || s.pseudo {
-					contrib = c18Set{}
-				} else {
-					if top[s.fn] {
-						continue // TOP: neutral for the intersection
-					}
-					contrib = s.must.clone()
-					for k := range a.entryMu[s.fn] {
-						if !s.relMay[k] { // not released again by the caller before the call
-							contrib[k] = true
-						}
-					}
-				}
-				if accTop {
-					acc, accTop = contrib, false
-				} else {
-					for k := range acc {
-						if !contrib[k] {
-							delete(acc, k)
-						}
-					}
-				}
-			}
-			if accTop {
-				continue
-			}
-			if top[fn] || !acc.equal(a.entryMu[fn]) {
-				top[fn] = false
-				a.entryMu[fn] = acc
-				changed = true
-			}
-		}
-	}
-	for _, fn := range e.funcs {
-		if top[fn] { // only reachable through call cycles without a root: dead code
-			a.entryMu[fn] = c18Set{}
-		}
-	}
+	a.entryMu = a.e.EntryMust()
 }
 
 func c19HasAny(set c18Set, alts []string) bool {
@@ -1415,6 +1365,9 @@ func (a *c19An) renderFinding(f *c19Finding) string {
 		whys[k] = true
 	}
 	s := fmt.Sprintf("%s of a shared object with %s not held (not locally, not by all callers); the object is shared: %s", strings.Join(kinds, "+"), f.need.label, strings.Join(c19Limit(sortedKeys(whys), 4), " / "))
+	if f.extra != "" {
+		s = f.extra + "; " + s
+	}
 	if !f.direct {
 		s += fmt.Sprintf("; %d access(es) reached through this call touch %s", len(wit), strings.Join(c19Limit(sortedKeys(fields), 12), ", "))
 	}
@@ -1503,6 +1456,440 @@ func (a *c19An) ruleR2(accs []*c19Access) {
 			c.OK("C19.R2", cons, w.Pos(r.pos), sum+"; runs under the mutex except when reached from "+strings.Join(sortedKeys(r.moved), ", ")+" (reported there by R1)")
 		default:
 			c.OK("C19.R2", cons, w.Pos(r.pos), sum)
+		}
+	}
+}
+
+// ---------------------------------------------------------------------------
+// reference escape
+// ---------------------------------------------------------------------------
+
+type c19RefUse struct {
+	fn      *ssa.Function
+	instr   ssa.Instruction
+	kind    string // "ranges over", "looks up in", "updates", "deletes from", "takes len of", "reads an element of", "writes an element of", "appends in place to", "copies into", "passes to <f>", "reads field T.f through", "writes field T.f through"
+	write   bool
+	inPlace bool         // an in-place element write (slices)
+	mutate  bool         // a map mutation
+	owner   *types.Named // for field uses
+	fname   string
+	pos     token.Pos // when the instruction itself has none
+}
+
+type c19RefItem struct {
+	fn       *ssa.Function
+	v        ssa.Value
+	resliced bool
+	depth    int
+}
+
+func c19IsRefType(t types.Type) bool {
+	switch u := t.Underlying().(type) {
+	case *types.Map, *types.Slice:
+		return true
+	case *types.Pointer:
+		_, ok := u.Elem().Underlying().(*types.Struct)
+		return ok
+	}
+	return false
+}
+
+// refUses follows the reference loaded by ld forward and lists its uses.
+func (a *c19An) refUses(fn *ssa.Function, ld ssa.Value) []c19RefUse {
+	var out []c19RefUse
+	seen := map[ssa.Value]bool{}
+	work := []c19RefItem{{fn: fn, v: ld}}
+	push := func(it c19RefItem) {
+		if it.v == nil || seen[it.v] || it.depth > 5 {
+			return
+		}
+		if !c19IsRefType(it.v.Type()) {
+			return
+		}
+		work = append(work, it)
+	}
+	loadsOf := func(f *ssa.Function, cell ssa.Value, it c19RefItem) {
+		if cell.Referrers() == nil {
+			return
+		}
+		for _, lr := range *cell.Referrers() {
+			if l, ok := lr.(*ssa.UnOp); ok && l.Op == token.MUL {
+				push(c19RefItem{fn: f, v: l, resliced: it.resliced, depth: it.depth})
+			}
+		}
+	}
+	for len(work) > 0 {
+		it := work[len(work)-1]
+		work = work[:len(work)-1]
+		if seen[it.v] {
+			continue
+		}
+		seen[it.v] = true
+		refs := it.v.Referrers()
+		if refs == nil {
+			continue
+		}
+		_, isMap := it.v.Type().Underlying().(*types.Map)
+		for _, r := range *refs {
+			switch y := r.(type) {
+			case *ssa.Phi:
+				push(c19RefItem{fn: it.fn, v: y, resliced: it.resliced, depth: it.depth})
+			case *ssa.ChangeType:
+				push(c19RefItem{fn: it.fn, v: y, resliced: it.resliced, depth: it.depth})
+			case *ssa.Slice:
+				if y.X == it.v {
+					push(c19RefItem{fn: it.fn, v: y, resliced: true, depth: it.depth})
+				}
+			case *ssa.Store:
+				if y.Val != it.v {
+					continue
+				}
+				cell, ok := y.Addr.(*ssa.Alloc)
+				if !ok {
+					continue // stored into other memory: not followed
+				}
+				loadsOf(it.fn, cell, it)
+				if cell.Referrers() != nil {
+					for _, cr := range *cell.Referrers() {
+						if mc, ok := cr.(*ssa.MakeClosure); ok {
+							if cf, ok := mc.Fn.(*ssa.Function); ok {
+								for i, bv := range mc.Bindings {
+									if bv == cell && i < len(cf.FreeVars) {
+										loadsOf(cf, cf.FreeVars[i], it)
+									}
+								}
+							}
+						}
+					}
+				}
+			case *ssa.MakeClosure:
+				if cf, ok := y.Fn.(*ssa.Function); ok {
+					for i, bv := range y.Bindings {
+						if bv == it.v && i < len(cf.FreeVars) {
+							push(c19RefItem{fn: cf, v: cf.FreeVars[i], resliced: it.resliced, depth: it.depth + 1})
+						}
+					}
+				}
+			case *ssa.Range:
+				if y.X != it.v || y.Referrers() == nil {
+					continue
+				}
+				for _, nr := range *y.Referrers() {
+					nx, ok := nr.(*ssa.Next)
+					if !ok {
+						continue
+					}
+					out = append(out, c19RefUse{fn: it.fn, instr: nx, kind: "ranges over", pos: y.Pos()})
+					if nx.Referrers() != nil {
+						for _, er := range *nx.Referrers() {
+							if ex, ok := er.(*ssa.Extract); ok && ex.Index == 2 {
+								push(c19RefItem{fn: it.fn, v: ex, depth: it.depth})
+							}
+						}
+					}
+				}
+			case *ssa.Lookup:
+				if y.X != it.v {
+					continue
+				}
+				out = append(out, c19RefUse{fn: it.fn, instr: y, kind: "looks up in"})
+				if y.CommaOk {
+					if y.Referrers() != nil {
+						for _, er := range *y.Referrers() {
+							if ex, ok := er.(*ssa.Extract); ok && ex.Index == 0 {
+								push(c19RefItem{fn: it.fn, v: ex, depth: it.depth})
+							}
+						}
+					}
+				} else {
+					push(c19RefItem{fn: it.fn, v: y, depth: it.depth})
+				}
+			case *ssa.MapUpdate:
+				if y.Map == it.v {
+					out = append(out, c19RefUse{fn: it.fn, instr: y, kind: "updates", write: true, mutate: true})
+				}
+			case *ssa.IndexAddr:
+				if y.X != it.v || y.Referrers() == nil {
+					continue
+				}
+				for _, rr := range *y.Referrers() {
+					switch z := rr.(type) {
+					case *ssa.UnOp:
+						if z.Op == token.MUL {
+							out = append(out, c19RefUse{fn: it.fn, instr: z, kind: "reads an element of"})
+							push(c19RefItem{fn: it.fn, v: z, depth: it.depth})
+						}
+					case *ssa.Store:
+						if z.Addr == y {
+							out = append(out, c19RefUse{fn: it.fn, instr: z, kind: "writes an element of", write: true, inPlace: true})
+						}
+					}
+				}
+			case *ssa.FieldAddr:
+				if y.X != it.v || y.Referrers() == nil {
+					continue
+				}
+				owner := an.NamedOf(y.X.Type())
+				if owner == nil {
+					continue
+				}
+				fname := strings.TrimPrefix(an.FieldName(y.X.Type(), y.Field), owner.Obj().Name()+".")
+				for _, rr := range *y.Referrers() {
+					switch z := rr.(type) {
+					case *ssa.UnOp:
+						if z.Op == token.MUL {
+							out = append(out, c19RefUse{fn: it.fn, instr: z, kind: "reads field " + owner.Obj().Name() + "." + fname + " through", owner: owner, fname: fname})
+						}
+					case *ssa.Store:
+						if z.Addr == y {
+							out = append(out, c19RefUse{fn: it.fn, instr: z, kind: "writes field " + owner.Obj().Name() + "." + fname + " through", write: true, owner: owner, fname: fname})
+						}
+					}
+				}
+			case *ssa.Return:
+				for idx, rv := range y.Results {
+					if rv != it.v {
+						continue
+					}
+					for _, s := range a.e.callers[it.fn] {
+						if s.pseudo {
+							continue
+						}
+						call, ok := s.instr.(*ssa.Call)
+						if !ok {
+							continue
+						}
+						if len(y.Results) == 1 {
+							push(c19RefItem{fn: s.fn, v: call, resliced: it.resliced, depth: it.depth + 1})
+						} else if call.Referrers() != nil {
+							for _, er := range *call.Referrers() {
+								if ex, ok := er.(*ssa.Extract); ok && ex.Index == idx {
+									push(c19RefItem{fn: s.fn, v: ex, resliced: it.resliced, depth: it.depth + 1})
+								}
+							}
+						}
+					}
+				}
+			case ssa.CallInstruction:
+				cc := y.Common()
+				isArg := false
+				for _, av := range cc.Args {
+					if av == it.v {
+						isArg = true
+					}
+				}
+				if !isArg {
+					continue
+				}
+				if b, ok := cc.Value.(*ssa.Builtin); ok {
+					switch b.Name() {
+					case "len", "cap":
+						if isMap {
+							out = append(out, c19RefUse{fn: it.fn, instr: y, kind: "takes len of"})
+						}
+					case "delete", "clear":
+						out = append(out, c19RefUse{fn: it.fn, instr: y, kind: "deletes from", write: true, mutate: true, inPlace: !isMap})
+					case "append":
+						if len(cc.Args) > 0 && cc.Args[0] == it.v {
+							if it.resliced {
+								out = append(out, c19RefUse{fn: it.fn, instr: y, kind: "appends in place to", write: true, inPlace: true})
+							} else {
+								out = append(out, c19RefUse{fn: it.fn, instr: y, kind: "reads an element of"})
+							}
+							if v, ok := y.(ssa.Value); ok {
+								push(c19RefItem{fn: it.fn, v: v, resliced: it.resliced, depth: it.depth})
+							}
+						} else {
+							out = append(out, c19RefUse{fn: it.fn, instr: y, kind: "reads an element of"})
+						}
+					case "copy":
+						if len(cc.Args) > 0 && cc.Args[0] == it.v {
+							out = append(out, c19RefUse{fn: it.fn, instr: y, kind: "copies into", write: true, inPlace: true})
+						} else {
+							out = append(out, c19RefUse{fn: it.fn, instr: y, kind: "reads an element of"})
+						}
+					}
+					continue
+				}
+				callees := a.calleesOf(y)
+				if len(callees) == 0 {
+					out = append(out, c19RefUse{fn: it.fn, instr: y, kind: "passes to " + strings.TrimPrefix(a.w.Info(y).Name, "func:") + " the contents of"})
+					continue
+				}
+				for _, g := range callees {
+					for i, p := range g.Params {
+						if c19ArgFor(y, g, i) == it.v {
+							push(c19RefItem{fn: g, v: p, resliced: it.resliced, depth: it.depth + 1})
+						}
+					}
+				}
+			}
+		}
+	}
+	return out
+}
+
+// structFieldLive: T.f has a store through an object that may be shared.
+func (a *c19An) structFieldLive(owner *types.Named, fname string) bool {
+	if a.fieldStores == nil {
+		a.fieldStores = map[string][]*ssa.Store{}
+		for _, fn := range a.e.funcs {
+			for _, b := range fn.Blocks {
+				for _, in := range b.Instrs {
+					st, ok := in.(*ssa.Store)
+					if !ok {
+						continue
+					}
+					fa, ok := st.Addr.(*ssa.FieldAddr)
+					if !ok {
+						continue
+					}
+					if n := an.NamedOf(fa.X.Type()); n != nil {
+						k := n.String() + "." + an.FieldName(fa.X.Type(), fa.Field)
+						a.fieldStores[k] = append(a.fieldStores[k], st)
+					}
+				}
+			}
+		}
+		a.fieldLive = map[string]int{}
+	}
+	k := owner.String() + "." + owner.Obj().Name() + "." + fname
+	if v, ok := a.fieldLive[k]; ok {
+		return v == 2
+	}
+	res := 1
+	for _, st := range a.fieldStores[k] {
+		fa := st.Addr.(*ssa.FieldAddr)
+		if len(a.sharedAt(st.Parent(), st, fa.X)) > 0 {
+			res = 2
+			break
+		}
+	}
+	a.fieldLive[k] = res
+	return res == 2
+}
+
+func (a *c19An) refEscape(accs []*c19Access) {
+	c, w := a.c, a.w
+	type loadUses struct {
+		x    *c19Access
+		uses []c19RefUse
+	}
+	var all []loadUses
+	mutated := map[string]bool{} // field -> the map is mutated in place somewhere
+	inPlace := map[string]bool{} // field -> slice elements are written in place somewhere
+	for _, x := range accs {
+		ld, ok := x.instr.(*ssa.UnOp)
+		if !ok || ld.Op != token.MUL || strings.HasSuffix(x.field, ".*") || !c19IsRefType(ld.Type()) {
+			continue
+		}
+		us := a.refUses(x.fn, ld)
+		all = append(all, loadUses{x, us})
+		for _, u := range us {
+			if u.mutate {
+				mutated[x.field] = true
+			}
+			if u.inPlace {
+				inPlace[x.field] = true
+			}
+		}
+	}
+	c.Extra["reference_loads"] = len(all)
+	c.AtLeast("C19.R1ref", "loads of a map/slice/pointer from a guarded field", len(all), 40)
+	perField := map[string][2]int{}
+	for _, lu := range all {
+		x := lu.x
+		readNeed := c19Need{alts: x.g.readAny, label: strings.Join(x.g.readAny, " or ")}
+		if !a.satisfied(x.fn, x.instr, readNeed) {
+			continue // the unguarded load itself is the table rule's business
+		}
+		_, isMap := x.instr.(*ssa.UnOp).Type().Underlying().(*types.Map)
+		_, isSlice := x.instr.(*ssa.UnOp).Type().Underlying().(*types.Slice)
+		for _, u := range lu.uses {
+			cnt := perField[x.field]
+			cnt[0]++
+			needs := []c19Need{readNeed}
+			if u.write {
+				needs = nil
+				for _, k := range x.g.writeAll {
+					needs = append(needs, c19Need{alts: []string{k}, label: k})
+				}
+			}
+			var missing *c19Need
+			for i := range needs {
+				if !a.satisfied(u.fn, u.instr, needs[i]) {
+					missing = &needs[i]
+					break
+				}
+			}
+			safe := missing == nil
+			why := ""
+			switch {
+			case safe:
+			case u.owner != nil:
+				if a.byField[u.owner] != nil {
+					safe = true // a tabled struct: its fields have their own rows
+				} else if !u.write && !a.structFieldLive(u.owner, u.fname) {
+					safe = true // no writer after publication
+				}
+			case isMap && !u.write && !mutated[x.field]:
+				safe = true
+			case !u.write && !isMap && (isSlice || !mutated[x.field]) && !inPlace[x.field]:
+				safe = true // a slice header is a snapshot when nobody writes elements in place
+			}
+			if safe {
+				cnt[1]++
+				perField[x.field] = cnt
+				continue
+			}
+			perField[x.field] = cnt
+			ev := a.sharedAt(x.fn, x.instr, x.base)
+			if len(ev) == 0 {
+				continue // the object is provably unpublished
+			}
+			if isMap {
+				why = "the map is mutated in place under the guard elsewhere, so using the copied reference without the guard races with those writers (concurrent map iteration/read and map write)"
+			} else {
+				why = "copying the reference does not copy the data: this use races with the writers that hold the guard"
+			}
+			construct := fmt.Sprintf("%s %s %s outside %s (reference loaded under the guard in %s)", w.FuncName(u.fn), u.kind, x.field, missing.label, w.FuncName(x.fn))
+			f := a.findings[construct]
+			if f == nil {
+				upos := u.instr.Pos()
+				if !upos.IsValid() {
+					upos = u.pos
+				}
+				if !upos.IsValid() {
+					upos = x.instr.Pos()
+				}
+				f = &c19Finding{rule: "C19.R1", construct: construct, pos: w.Pos(upos), fn: u.fn, direct: true, swapObj: true, evs: map[string]c19Ev{}, witness: map[string]bool{}, need: *missing,
+					extra: "reference escape: " + why}
+				a.findings[construct] = f
+			}
+			if u.write {
+				f.write = true
+			} else {
+				f.read = true
+			}
+			if on := x.owner.Obj().Name(); on != "SwapData" && on != c19OwnerType {
+				f.swapObj = false
+			}
+			for _, e := range ev {
+				f.evs[e.why] = e
+			}
+			f.witness[fmt.Sprintf("%s loads %s under the guard [%s]", w.FuncName(x.fn), x.field, w.Pos(x.instr.Pos()))] = true
+			f.witness[fmt.Sprintf("%s %s it without the guard [%s]", w.FuncName(u.fn), u.kind, w.Pos(u.instr.Pos()))] = true
+		}
+	}
+	fields := make([]string, 0, len(perField))
+	for f := range perField {
+		fields = append(fields, f)
+	}
+	sort.Strings(fields)
+	for _, f := range fields {
+		cnt := perField[f]
+		if cnt[0] == cnt[1] {
+			c.OK("C19.R1ref", f+" reference", "-", fmt.Sprintf("%d use(s) of the loaded reference, all with the guard held or unable to race (snapshot / no in-place writer)", cnt[0]))
 		}
 	}
 }
